@@ -263,6 +263,12 @@ def run(ck):
                 ck.check(dtype_name(byarg.get(k)) == "builtins.str", "C19.R3", "load_data:%s read as str" % k, ld.site(), "bases are read with dtype %s" % dtype_name(byarg.get(k)))
             if items is not None and len(items) == 4:
                 s_, tg, b1, b2 = items
+                # N = 1 and n = 1 are data files too: what is loaded must keep its (rows, columns) layout for them
+                for nm_, v_ in (("samples", s_), ("training bases", b1)):
+                    rk = len(v_.shape) if isinstance(v_, VTens) and v_.shape is not None else None
+                    ck.check(rk == 2, "C19.R3", "load_data:%s keep two axes for every file" % nm_, ld.site(),
+                             "the %s are what np.loadtxt returns without ndmin=2: a file with a single row (N = 1) or a single column (one site) is squeezed to a 1-D array, so the row / site axes "
+                             "are no longer what was written (extract_refbasis_samples and fit then fail)" % nm_, key="C19.R3|load_data|loadtxt-squeezes:%s" % nm_)
                 ck.check(isinstance(s_, VTens) and s_.term == T.sym("file(samples_path)") and s_.kind == "tensor", "C19.R3", "load_data:samples tensor", ld.site(), "first result is not the samples file as a tensor")
                 F = T.sym("file(psi_path)")
                 col = lambda k: T.app("index", F, (("slice", None, None, None), k))  # noqa: E731
@@ -290,6 +296,11 @@ def run(ck):
             items = p.interp.concrete_items(p.value)
             ok = items is not None and len(items) == 4 and isinstance(items[1], VTens) and items[1].term == T.stack0(T.sym("file(re_path)"), T.sym("file(im_path)"))
             ck.check(ok, "C19.R3", "load_data_DM:target (re, im)", ldm.site(), "target matrix is not make_complex(real file, imaginary file)")
+            if items is not None and len(items) == 4:
+                for nm_, v_ in (("samples", items[0]), ("training bases", items[2])):
+                    rk = len(v_.shape) if isinstance(v_, VTens) and v_.shape is not None else None
+                    ck.check(rk == 2, "C19.R3", "load_data_DM:%s keep two axes for every file" % nm_, ldm.site(),
+                             "the %s are what np.loadtxt returns without ndmin=2: a file with a single row or a single column is squeezed to a 1-D array" % nm_, key="C19.R3|load_data_DM|loadtxt-squeezes:%s" % nm_)
             for nones in (("re_path",), ("im_path",)):
                 paths = paths_of(prog, mk(names, nones))
                 ck.check(all(q.outcome == "raise" and q.value.exc_name == "ValueError" for q in paths), "C19.R3", "load_data_DM:refuses only %s missing" % nones[0], ldm.site(),
